@@ -42,7 +42,10 @@ def parse_position_marker_arg(
             dec_part_raw_stripped = decimal_parts[0].rstrip("0")  # strip 0s off the decimal places
             dec_part = int(dec_part_raw_stripped if dec_part_raw_stripped != "" else "0")
         elif len(decimal_parts) == 2:  # XXXXX.YYYYY
-            pos = int(decimal_parts[0] if decimal_parts[0] not in ("", "-") else "0")
+            # redundant leading zeros are dropped as text (int() limits the number of digits it reads)
+            whole = decimal_parts[0]
+            sign = "-" if whole.startswith("-") else ""
+            pos = int(sign + (whole.lstrip("-").lstrip("0") or "0"))
             dec_part_raw_stripped = decimal_parts[1].rstrip("0")  # strip 0s off the decimal places
             dec_part = int(dec_part_raw_stripped if dec_part_raw_stripped != "" else "0")
         else:
